@@ -36,6 +36,14 @@ CHECKS = {
               "successful must be an ancestor of the final tip."),
         note="Trusted: as C07; commit scenarios use a conflict-filtered reduction (preempt only before calls whose path another actor touches), footprints iterated to a fixpoint. One residual defect is a known finding.",
     ),
+    "C09": dict(
+        engine="E2 crashfs", category="fault_enumeration",
+        technique="exhaustive crash-point enumeration over the interposed file system (process-crash model; power-loss variants with fsync enabled); recovery predicate on fresh objects",
+        text=("For 14 (quick) / 21 (thorough) repository-changing operations from a loose and a packed start state the process is killed before every mutating system call "
+              "in turn; the post-crash directory is reopened with fresh dulwich objects (thorough: also git fsck) and must open, have every ref at its old or new value with a readable, "
+              "correctly hashing closure, keep every previously reachable object, parse index/config as old or new and never offer a half-written object."),
+        note="Trusted: interposition layer incl. raw write visibility (LoggedFileIO), atomic system calls (no torn write(2)), ordered-metadata power-loss model restricted to one damaged unsynced file at a time.",
+    ),
     "C11": dict(
         engine="E4 enum + E5 mutfault", category="exploration",
         technique="bounded-exhaustive enumeration of index contents x versions; independent format parser + C git as oracles; exhaustive single-fault damage",
